@@ -80,6 +80,26 @@ static struct dexkv_s ckv[1];
 
 static char *const *ckv_fmt = NULL;
 static size_t ckv_nfmt = 0;
+
+static void
+rhs_datetime(const char *s)
+{
+	char *ep = NULL;
+
+	ckv->d = dt_io_strpdt_ep(s, ckv_fmt, ckv_nfmt, &ep, NULL);
+	if (ckv->d.typ == DT_UNK || (ep != NULL && *ep != '\0')) {
+		/* unreadable or only partly read with the input
+		 * formats, it is today, now etc. or a date/time
+		 * in standard notation */
+		ckv->d = dt_io_strpdt(s, NULL, 0U, NULL);
+	}
+	if (ckv->d.typ == DT_UNK) {
+		/* one more try */
+		ckv->d = dt_strpdt(s, NULL, NULL);
+	}
+	ckv->sp.spfl = DT_SPFL_N_STD;
+	return;
+}
 %}
 
 %union {
@@ -172,20 +192,7 @@ spec
 
 rhs
 	: TOK_DATETIME {
-		char *ep = NULL;
-
-		ckv->d = dt_io_strpdt_ep($<sval>1, ckv_fmt, ckv_nfmt, &ep, NULL);
-		if (ckv->d.typ == DT_UNK || (ep != NULL && *ep != '\0')) {
-			/* unreadable or only partly read with the input
-			 * formats, it is today, now etc. or a date/time
-			 * in standard notation */
-			ckv->d = dt_io_strpdt($<sval>1, NULL, 0U, NULL);
-		}
-		if (ckv->d.typ == DT_UNK) {
-			/* one more try */
-			ckv->d = dt_strpdt($<sval>1, NULL, NULL);
-		}
-		ckv->sp.spfl = DT_SPFL_N_STD;
+		rhs_datetime($<sval>1);
 	}
 	| TOK_STRING {
 		switch (ckv->sp.spfl) {
@@ -264,6 +271,11 @@ rhs
 		case DT_SPFL_N_WCNT_MON:
 		case DT_SPFL_N_WCNT_YEAR:
 			ckv->s = strtol($<sval>1, NULL, 10);
+			break;
+		case DT_SPFL_UNK:
+			/* no specifier, a date/time of digits only, like
+			 * 20120301 for -i %Y%m%d or an epoch stamp */
+			rhs_datetime($<sval>1);
 			break;
 		default:
 			/* the rest can hardly have ints as inputs */
